@@ -81,13 +81,14 @@ type hcfg struct {
 	// tokStyle: where the counter sits in the issued tokens, so that two live tokens of one rig are
 	// near misses of each other: 0 "prefix-N"; 1..4 a fixed-width base-36 counter first / in the
 	// middle / last but one / last (same length, all other bytes equal).
-	tokStyle int
-	reuseCtx bool // one fasthttp.RequestCtx for the whole history, as on a keep-alive connection
+	tokStyle      int
+	reuseCtx      bool // one fasthttp.RequestCtx for the whole history, as on a keep-alive connection
+	customMethods bool // the app registers extension methods (Config.RequestMethods)
 }
 
 func (h *hcfg) String() string {
-	return fmt.Sprintf("backend=%s extractor=%s keylookup=%v decoy-keylookup=%q singleuse=%v idle=%s cookie=%s mode=%s host=%s trusted=%q reusectx=%v tokstyle=%d",
-		h.backend, h.extractor, h.keyLookup, h.decoy, h.singleUse, h.idle, h.cookieName, smNames[h.mode], h.host, h.trustedCfg, h.reuseCtx, h.tokStyle)
+	return fmt.Sprintf("backend=%s extractor=%s keylookup=%v decoy-keylookup=%q singleuse=%v idle=%s cookie=%s mode=%s host=%s trusted=%q reusectx=%v tokstyle=%d custom-methods=%v",
+		h.backend, h.extractor, h.keyLookup, h.decoy, h.singleUse, h.idle, h.cookieName, smNames[h.mode], h.host, h.trustedCfg, h.reuseCtx, h.tokStyle, h.customMethods)
 }
 
 type entry struct {
@@ -170,6 +171,10 @@ func newWorld(cfg *hcfg, plan *faultPlan) *world {
 	if cfg.mode == smProxyHTTPS || cfg.mode == smProxySpoof {
 		fc.TrustProxy = true
 		fc.TrustProxyConfig = fiber.TrustProxyConfig{Proxies: []string{trustedPeer}}
+	}
+	if cfg.customMethods {
+		// methods beyond fiber's defaults have to be registered with the app to be routable at all
+		fc.RequestMethods = append(append([]string(nil), fiber.DefaultMethods...), customMethods...)
 	}
 	w.app = fiber.New(fc)
 	cc := fcsrf.Config{
@@ -664,22 +669,35 @@ type histSpec struct {
 	steps    []step
 }
 
-var unsafeMethods = []string{"POST", "POST", "POST", "PUT", "PATCH", "DELETE"}
+// Safe methods are GET, HEAD, OPTIONS, TRACE (RFC 9110 9.2.1); every other method is unsafe: the
+// usual four, CONNECT (one of fiber's default methods) and, when the app registers them through
+// Config.RequestMethods, extension methods.
+var unsafeMethods = []string{"POST", "POST", "POST", "PUT", "PATCH", "DELETE", "CONNECT"}
+var customMethods = []string{"PURGE", "PROPPATCH", "LINK", "UNLINK", "MKCOL"}
+
+func unsafeFor(r *gen.Rand, cfg *hcfg) string {
+	if cfg.customMethods && r.Chance(2, 5) {
+		return gen.Pick(r, customMethods)
+	}
+	return gen.Pick(r, unsafeMethods)
+}
+
 var safeMethods = []string{"GET", "GET", "GET", "HEAD", "OPTIONS", "TRACE"}
 
 func genCfg(r *gen.Rand, backends []string) *hcfg {
 	cfg := &hcfg{
-		backend:    gen.Pick(r, backends),
-		extractor:  gen.Pick(r, []string{"header", "header", "form", "query", "param", "cookie"}),
-		keyLookup:  r.Bool(),
-		singleUse:  r.Chance(2, 5),
-		idle:       gen.Pick(r, []time.Duration{6 * time.Second, 10 * time.Second, 10 * time.Second, 60 * time.Second}),
-		cookieName: "csrf_",
-		mode:       gen.Pick(r, []int{smHTTP, smHTTP, smTLS, smProxyHTTPS, smProxySpoof}),
-		host:       gen.Pick(r, []string{"example.com", "app.example.com", "example.com:8080", "shop.test"}),
-		prefix:     "t" + r.StringFrom(gen.Lower+gen.Digits, 6),
-		reuseCtx:   r.Bool(),
-		tokStyle:   r.Intn(5),
+		backend:       gen.Pick(r, backends),
+		extractor:     gen.Pick(r, []string{"header", "header", "form", "query", "param", "cookie"}),
+		keyLookup:     r.Bool(),
+		singleUse:     r.Chance(2, 5),
+		idle:          gen.Pick(r, []time.Duration{6 * time.Second, 10 * time.Second, 10 * time.Second, 60 * time.Second}),
+		cookieName:    "csrf_",
+		mode:          gen.Pick(r, []int{smHTTP, smHTTP, smTLS, smProxyHTTPS, smProxySpoof}),
+		host:          gen.Pick(r, []string{"example.com", "app.example.com", "example.com:8080", "shop.test"}),
+		prefix:        "t" + r.StringFrom(gen.Lower+gen.Digits, 6),
+		reuseCtx:      r.Bool(),
+		tokStyle:      r.Intn(5),
+		customMethods: r.Chance(1, 3),
 	}
 	if r.Chance(1, 40) {
 		cfg.idle = 30 * time.Minute
@@ -754,7 +772,7 @@ func genHistory(r *gen.Rand, backends []string, maxSteps int, noTime bool) *hist
 				s.ck, s.label = gen.Pick(r, []int{selOther, selForged, selStale, selEmpty}), "fetch-with-foreign-cookie"
 			}
 		case 1:
-			s.kind, s.method = kPost, gen.Pick(r, unsafeMethods)
+			s.kind, s.method = kPost, unsafeFor(r, cfg)
 			switch r.PickW(34, 6, 8, 7, 5, 4, 4, 3, 10, 4, 4, 3, 10, 5, 4) {
 			case 0:
 				s.ext, s.ck, s.label = selOwn, selOwn, "own"
@@ -796,7 +814,7 @@ func genHistory(r *gen.Rand, backends []string, maxSteps int, noTime bool) *hist
 		default:
 			s.kind, s.label = kDel, "delete-token"
 			if r.Bool() {
-				s.method = gen.Pick(r, unsafeMethods)
+				s.method = unsafeFor(r, cfg)
 			} else {
 				s.method = "GET"
 			}
